@@ -78,6 +78,19 @@ RedundantBad(r) == LET idx == Redundant(r) IN
   ELSE IF PrintT(<<"BADEV", "redundant-setid", r, CHOOSE i \in idx : \A j \in idx : i <= j, Cardinality(idx)>>)
        THEN 1 ELSE 1
 
+\* Rows with mu = "order" carry lock-order pairs [g, held, acquired, 0, 0]: goroutine g acquired mutex
+\* `acquired` while it held mutex `held` (0 = module mutex, i+1 = mutex of function i).  Law lock-order-cycle:
+\* the union of these pairs over the goroutines of one round is acyclic.  PrintLocks.tla shows by exhaustion
+\* that printers whose nested acquisitions form a cycle (module printer: m then f; function printer: f then m)
+\* reach a state in which none can move, and that an acyclic order cannot deadlock.
+Pairs(r) == {<<Trace[r].evs[i][2], Trace[r].evs[i][3]>> : i \in 1..Len(Trace[r].evs)}
+RECURSIVE Closure(_)
+Closure(R) == LET R2 == R \cup {<<pq[1][1], pq[2][2]>> : pq \in {x \in R \X R : x[1][2] = x[2][1]}}
+              IN IF R2 = R THEN R ELSE Closure(R2)
+OrderBad(r) == IF \E p \in Closure(Pairs(r)) : p[1] = p[2]
+               THEN (IF PrintT(<<"BADEV", "lock-order-cycle", r, 1, Cardinality(Pairs(r))>>) THEN 1 ELSE 1)
+               ELSE 0
+
 VARIABLE l
 Init == l = 0
 Next == l < N /\ l' = l + 1
@@ -85,5 +98,5 @@ Spec == Init /\ [][Next]_l
 
 \* Always true: the verdict is the list of BADEV lines (an invariant violation per row would
 \* make TLC print one error trace per failing row, quadratic in the number of rows).
-RowOK == l >= 1 => Replay(l, 1, 0) + RedundantBad(l) >= 0
+RowOK == l >= 1 => (IF Trace[l].mu = "order" THEN OrderBad(l) ELSE Replay(l, 1, 0) + RedundantBad(l)) >= 0
 =============================================================================
